@@ -101,7 +101,8 @@ async def explore(tier, seed, m, v):
             stats["kinds"][kind] = stats["kinds"].get(kind, 0) + 1
             try:
                 b.calls.clear()
-                resp = await b.engine.execute(q, operation_name=opn, variables=variables)
+                with er.guard(query=repr(q), operation_name=opn, variables=repr(variables)[:300], sdl=print_sdl(b.model)):
+                    resp = await b.engine.execute(q, operation_name=opn, variables=variables)
             except BaseException as ex:
                 stats["raised"].append({"query": repr(q)[:400], "operation_name": opn, "variables": repr(variables)[:200], "exception": f"{type(ex).__name__}: {ex}"[:300]})
                 continue
